@@ -296,6 +296,29 @@ example : parseMessage goLib (utf8 "a \u2028") (.lex (.unexpectedRune 0x2028))
 example (L : Lib) : parseMessage L (utf8 "'abc") (.lex .unexpectedEnd)
       = utf8 "jmespath: invalid expression \"'abc\": unexpected end of expression" := rfl
 
+/-- the model's parse error for an expression (`none` if it compiles) -/
+def perrOf (e : Bytes) : Option PErr := match Parser.parse e with | .error x => some x | .ok _ => none
+
+/-- **tie of the parse examples to the model**: for the same expression bytes the model's parser reports the erasure
+    (`PErrV.erase`: the payload forgotten) of the Go error value used above -/
+theorem parse_examples_tie :
+    perrOf (utf8 "foo(") = some (PErrV.erase (.unknownFunction (utf8 "foo"))) ∧
+    perrOf (utf8 "abs()") = some (PErrV.erase (.invalidFunctionCall (utf8 "abs"))) ∧
+    perrOf (utf8 "sort_by(@, &a, @)") = some (PErrV.erase (.invalidFunctionCall [])) ∧
+    perrOf (utf8 "sort_by(@, @)") = some (PErrV.erase (.invalidFunctionArgument (utf8 "sort_by") (utf8 "expression"))) ∧
+    perrOf (utf8 "a[::0]") = some (PErrV.erase .invalidSliceStep) ∧
+    perrOf (utf8 "a b") = some (PErrV.erase (.unexpectedToken (utf8 "b"))) ∧
+    perrOf [] = some (PErrV.erase (.unexpectedToken [])) ∧
+    perrOf (utf8 "a[99999999999999999999]") = some (PErrV.erase (.invalidIndex (utf8 "99999999999999999999"))) ∧
+    perrOf (utf8 "\"\\q\"") = some (PErrV.erase (.invalidQuotedString (utf8 "\"\\q\""))) ∧
+    perrOf [0x61, 0xFF, 0x62] = some (PErrV.erase (.lex .invalidRune)) ∧
+    perrOf (utf8 "#") = some (PErrV.erase (.lex (.unexpectedRune 0x23))) ∧
+    perrOf [0x61, 0x00] = some (PErrV.erase (.lex (.unexpectedRune 0))) ∧
+    perrOf (utf8 "é") = some (PErrV.erase (.lex (.unexpectedRune 0xE9))) ∧
+    perrOf (utf8 "a \u2028") = some (PErrV.erase (.lex (.unexpectedRune 0x2028))) ∧
+    perrOf (utf8 "'abc") = some (PErrV.erase (.lex .unexpectedEnd)) := by
+  refine ⟨?_, ?_, ?_, ?_, ?_, ?_, ?_, ?_, ?_, ?_, ?_, ?_, ?_, ?_, ?_⟩ <;> decide +kernel
+
 /-! ## B. `unmodelled` on JSON input -/
 
 /-- **on a JSON document the model never panics and declines for the enumerated reasons only.**  `d.Fin`: every number
